@@ -311,6 +311,15 @@ def leaf_plans(ctx, small, medium):
         if leaf is not None:
             chosen.setdefault(leaf, (al, ka, kb))
     ctx.extra['dispatch_leaves'] = sorted(chosen)
+    # the leaves of the small-size branch (direct expressions), asked the same way
+    souts = core.run_driver('C01', [ln.replace('size={} '.format(medium), 'size=1 ') for ln in lines])
+    small_leaves = {}
+    for (al, ka, kb), ans in zip(combos, souts):
+        f = dict(t.split('=', 1) for t in ans.split()[1:]) if ans.startswith('ok ') else {}
+        if f.get('leaf') is not None and f.get('leaf') != 'zeroguard':
+            small_leaves.setdefault(f['leaf'], (al, ka, kb))
+    ctx.extra['small_leaves'] = sorted(small_leaves)
+    ctx.extra['small_leaf_reps'] = small_leaves
     variants = [('float64', 'C')]                       # BLAS regime
     if not ctx.quick:
         variants += [('float64', 'strided'), ('complex128', 'F'), ('int64', 'C')]  # + fallback
@@ -320,6 +329,12 @@ def leaf_plans(ctx, small, medium):
             yield dict(kind='lincomb', size=medium, shape=shape, dtype=dt, layout=layout,
                        alias=al, a=SCAL_REP[ka], b=SCAL_REP[kb], ca=ka.rstrip('2'),
                        cb=kb.rstrip('2'), space=odl.tensor_space(shape, dtype=dt),
+                       vseed=ctx.rng.getrandbits(32))
+    for leaf, (al, ka, kb) in sorted(small_leaves.items()):
+        for sz in (1, 7, max(1, small - 1)):
+            yield dict(kind='lincomb', size=sz, shape=(sz,), dtype='float64', layout='C',
+                       alias=al, a=SCAL_REP[ka], b=SCAL_REP[kb], ca=ka.rstrip('2'),
+                       cb=kb.rstrip('2'), space=odl.tensor_space((sz,), dtype='float64'),
                        vseed=ctx.rng.getrandbits(32))
     # the same leaves in the medium (fallback) regime are cheap: all of them, always
     for leaf, (al, ka, kb) in sorted(chosen.items()):
@@ -331,7 +346,7 @@ def leaf_plans(ctx, small, medium):
 
 def EXPECTED_BRANCHES(ctx):
     leaves = ctx.extra.get('dispatch_leaves', [])
-    exp = ['leaf/small/direct']
+    exp = ['leaf/small/' + l for l in ctx.extra.get('small_leaves', ['lin11'])]
     for leaf in leaves:
         if leaf == 'zeroguard':
             exp += ['leaf/small/zeroguard', 'leaf/fallback/zeroguard', 'leaf/blas/zeroguard']
@@ -1155,6 +1170,55 @@ def run_nonfinite(ctx):
                             bad[0], X[bad[0]], Y[bad[0]], got[bad[0]], exp[bad[0]]),
                         {'kind': 'nonfinite', 'space': sname, 'op': name, 'same': same,
                          'x': [str(v) for v in X[:12]], 'y': [str(v) for v in Y[:12]]})
+
+    # scalar multiples, negation, copy and assign of vectors with inf entries, in every size
+    # regime: the entry-wise result a * x keeps +-inf (the literal a*x1 + 0*x2 would give nan);
+    # NaN entries are not used here (0 * nan is nan either way)
+    small, medium = thresholds()
+
+    def assign_to(x, c):
+        y = x.space.zero()
+        y.assign(x)
+        return y
+    sops = [('muls', lambda x, c: x * c, lambda X, c: c * X), ('rmuls', lambda x, c: c * x, lambda X, c: c * X),
+            ('divs', lambda x, c: x / c, lambda X, c: X / c), ('neg', lambda x, c: -x, lambda X, c: -X),
+            ('assign', assign_to, lambda X, c: X.copy()), ('copy', lambda x, c: x.copy(), lambda X, c: X.copy()),
+            ('lincomb1', lambda x, c: x.space.lincomb(c, x), lambda X, c: c * X),
+            ('lincomb-b0', lambda x, c: x.space.lincomb(c, x, 0, x.space.one()), lambda X, c: c * X),
+            ('lincomb-a0', lambda x, c: x.space.lincomb(0, x.space.one(), c, x), lambda X, c: c * X)]
+    sizes = [3, max(1, small - 1), small, small + 5] + ([] if ctx.quick else [medium])
+    for n in sizes:
+        # (real spaces only: on complex spaces the scalar is converted to a complex number and
+        # IEEE complex multiplication of (inf+0j) legitimately produces a nan imaginary part)
+        for sname, space in (('rn', odl.rn(n)), ('rn-f32', odl.rn(n, dtype='float32')),
+                             ('discr', odl.uniform_discr(0, 1, n))):
+            for name, act, ref in sops:
+                a = np.array([rng.choice([np.inf, -np.inf, 1.0, -2.5, 0.0]) for _ in range(n)])
+                a[0], a[-1] = np.inf, -np.inf
+                x = space.element(a.astype(space.dtype))
+                c = rng.choice([2.0, -0.5, 1.0, 4])   # powers of two: (1/c) * x == x / c exactly
+                X = arr(x)
+                with np.errstate(all='ignore'):
+                    exp = ref(X, c)
+                    try:
+                        got = arr(act(x, c))
+                        status = 'ok'
+                    except Exception as e:  # noqa
+                        status, got = 'err:' + type(e).__name__ + ':' + str(e)[:100], None
+                reg = regime_of(n, small, medium)
+                ctx.case(('nonfinite-scalar', sname, name, reg))
+                ctx.hit('nonfinite/{}/{}'.format(name, reg))
+                if status != 'ok' or not np.array_equal(got, exp, equal_nan=True):
+                    bad = None if got is None else [i for i in range(len(exp))
+                                                    if not np.array_equal(got[i:i + 1], exp[i:i + 1],
+                                                                          equal_nan=True)]
+                    ctx.violation(
+                        'nonfinite op={} space={} regime={}'.format(name, sname, reg),
+                        status if got is None else
+                        'size {}: entry {}: x={} c={} gives {} but the entry-wise result is {}'.format(
+                            n, bad[0], X[bad[0]], c, got[bad[0]], exp[bad[0]]),
+                        {'kind': 'nonfinite-scalar', 'space': sname, 'op': name, 'n': n, 'c': c,
+                         'x': [str(v) for v in X[:8]]})
 
 
 def run_special(ctx):
